@@ -924,6 +924,18 @@ func runC12(c *CaseCtx) (res CaseResult) {
 			if refRF.Class == ClsOK {
 				ref = ClsOK
 			}
+			if refsAfter && anyOnce(&s) {
+				// The references (and the sequential samples below) are taken
+				// AFTER the concurrent phase, when every shared run-once
+				// converter has memoized; the concurrent calls ran while they
+				// had not. A memoized run-once converter hands out its result
+				// without its arguments being resolved, so an inner call that
+				// ends "cannot be satisfied" in the fresh state succeeds in the
+				// memoized one: no sequential execution in the state the
+				// concurrent call saw is available to compare with (F13).
+				ref = ""
+				res.obs("redefined_calls_not_compared_memo_state_differs", 1)
+			}
 		}
 		// (the outcome of Redefine itself depends on map order even on these
 		// scenarios, so no sequential singleton exists to compare with)
